@@ -603,6 +603,7 @@ class Screen(BaseScreen, RealTerminal):
             osb = []
         sb: list[list[tuple[object, Literal["0", "U"] | None, bytes]]] = []
         cy = self._cy
+        rows_used_before = self._rows_used
         y = -1
 
         ins = None
@@ -715,14 +716,16 @@ class Screen(BaseScreen, RealTerminal):
         if canvas.cursor is not None:
             x, y = canvas.cursor
             output += [set_cursor_position(x, y), escape.SHOW_CURSOR]
-            self._cy = y
+            new_cy = y
         else:
             # the output cursor stays on the last row drawn
-            self._cy = cy
+            new_cy = cy
 
         if self._resized:
-            # handle resize before trying to draw screen
+            # handle resize before trying to draw screen: nothing of this frame is written
+            self._rows_used = rows_used_before
             return
+        self._cy = new_cy
         try:
             for line in output:
                 if isinstance(line, bytes):
